@@ -63,7 +63,20 @@ func VerifUnifiedHistory() {
 			now := map[string]bool{}
 			for k, m := range zzModels {
 				if subset&(1<<k) != 0 {
-					list = append(list, &domain.ModelInfo{Name: m})
+					mi := &domain.ModelInfo{Name: m}
+					if gosym.Param("DIGESTS") == 1 {
+						// what a backend may put in a listing: no digest, short digests, the same name again
+						// with another digest (C20: a listing must never crash the catalogue)
+						if d := []string{"", "ab12", "cd34", "sha256:0123456789abcdef"}[gosym.Choice("digest", 4)]; d != "" {
+							dd := d
+							mi.Details = &domain.ModelDetails{Digest: &dd}
+						}
+						if gosym.Choice("listed_twice", 2) == 1 {
+							d2 := "ef56"
+							list = append(list, &domain.ModelInfo{Name: m, Details: &domain.ModelDetails{Digest: &d2}})
+						}
+					}
+					list = append(list, mi)
 					now[m] = true
 				}
 			}
